@@ -170,4 +170,14 @@ def demos():
     r = _mutant("MC_Reg", ["MC_Reg.tla"], [("/\\ sim' = ApplySeq(sim, [j \\in 1 .. Len(ms) |-> Op(\"Del\", <<>>, <<ms[j]>>)], K)", "/\\ sim' = sim")],
                 constants={"N0": 2, "MaxIdx": 3, "Depth": 2, "EMIT": False}, invariants=["RegisterAgreement"])
     expect("mutant: deletion not forwarded to the simulator -> RegisterAgreement violated", not r.ok(), True)
+    life = {"NP": 2, "MaxReg": 2, "Depth": 4, "EMIT": False}
+    r = common.run_tlc("MC_Life", constants=life, invariants=["NeverRefused"], use_override=False)
+    expect("witness: some call history contains a refused call -> NeverRefused violated (refusals are exercised)", not r.ok(), True)
+    r = _mutant("MC_Life", ["MC_Life.tla"], [("ELSE IF prog[ctx].locked THEN \"CircuitError\"\n                ELSE IF ctx # p", "ELSE IF ctx # p")],
+                constants=life, properties=["LockedIsFrozen"], use_override=False)
+    expect("mutant: a gate by reference is accepted on a locked program -> LockedIsFrozen violated", not r.ok(), True)
+    r = _mutant("MC_Life", ["MC_Life.tla"], [("/\\ prog' = [prog EXCEPT ![p].locked = TRUE,\n                                          ![NextFree] = [Absent EXCEPT !.ex = TRUE, !.locked = TRUE,",
+                                             "/\\ prog' = [prog EXCEPT ![NextFree] = [Absent EXCEPT !.ex = TRUE, !.locked = TRUE,")],
+                constants=life, invariants=["SourceFlat"], use_override=False)
+    expect("mutant: compiling does not lock the source -> SourceFlat violated", not r.ok(), True)
     return bad
